@@ -125,7 +125,8 @@ def accept_gates(R, rule, W, vr):
     from ..sm import reach_pf
     names_vr = {1: "self", 2: "metadata", 3: "resp", 4: "key_id"}
     KEEP = lambda n: n in ("parse_etag", "make_transaction_hash")
-    canon_of = lambda bv_, tm: optnorm.canon(terms.render(bv_, optnorm.inline_all(W, bv_, tm, KEEP), W, names_vr, transparent=NOERR))
+    # borrow/ownership/whole-slice adapters do not change what is compared or verified
+    canon_of = lambda bv_, tm: census._strip_adapters(optnorm.canon(terms.render(bv_, optnorm.inline_all(W, bv_, tm, KEEP), W, names_vr, transparent=NOERR)))
     ETAG_T = "parse_etag(to_str(get(headers(resp), http::header::ETAG)@OK)@OK)"
     EXP_HASH = "decode(split_once(%s, 58)@OK.1)@OK" % ETAG_T
     EXP_SIG = "from_bytes(decode(split_once(%s, 58)@OK.0)@OK)@OK" % ETAG_T
